@@ -11,6 +11,7 @@ CONSTANTS N = 4
  VCBatchPolicy = "either"
  AggBatchFor = "none"
  MemoVerifier = FALSE
+ DomainCache = FALSE
  ReplayPolicy = "either"
 CONSTRAINT Mark
 POSTCONDITION Report
